@@ -25,7 +25,8 @@ fn mk(bs: u32, len: usize, atom: u8, ch: u8, bps: u8) -> Case {
             delivery: (len % 3) as u8,
             seed: 0,
         },
-        cfg: Cfg::default(),
+        // every other length with a configured block size that differs from the argument
+        cfg: Cfg { cfg_bs_mismatch: len % 2 == 1, ..Cfg::default() },
     }
 }
 
